@@ -752,7 +752,9 @@ class CARMA(Quasisep):
         # for complex roots, every conjugate pair match one full celerite term,
         # so, every other entry from om_complex is used.
         # same logic as for _complex_select
-        self.obsmodel = jnp.where(_real_mask, om_real, jnp.ravel(om_complex)[::2])
+        self.obsmodel = jnp.where(
+            _real_mask, om_real, jnp.where(_complex_select, h1, h2)
+        )
 
         self.alpha = alpha
         self.beta = beta
